@@ -18,10 +18,14 @@
 import Scico.Proofs.Jaxpr
 import Scico.Proofs.JaxprExample
 import Scico.Proofs.JaxprScope
+import Scico.Proofs.JaxprLocal
+import Scico.Proofs.JaxprArray
 import Mathlib.LinearAlgebra.Pi
 import Mathlib.LinearAlgebra.Matrix.ToLin
 import Mathlib.LinearAlgebra.Matrix.DotProduct
 import Mathlib.LinearAlgebra.Matrix.ConjTranspose
+import Mathlib.Algebra.Star.Pi
+import Mathlib.Algebra.Star.Module
 
 namespace Scico.Props.C06
 open Scico.Jaxpr
@@ -48,6 +52,29 @@ theorem C06_check_sound (I : Interp V) (hI : I.Sound R K) (p : Prog) :
   · intro h
     have hl := run_linR (K := K) hI p h
     exact ⟨fun a b x y => by rw [hl.map_add, hl.map_smul, hl.map_smul], isLinearMap_zero_at hl⟩
+
+/-- **Local form** (round 2): only the primitive instances that occur in the program have to satisfy their class
+    fact (`Interp.SoundAt`, one statement per equation) - not every primitive id.  With the equations numbered
+    `0, 1, 2, …` (`C06_check_ignores_prim`) and `den cls k` the `k`-th equation's JAX primitive with its static
+    parameters, these hypotheses are exactly what the run-time table validation tests, instance by instance
+    (harness/jaxpr_table.py, streams "coverage" and "in situ"). -/
+theorem C06_check_sound_local (I : Interp V) (hstar : ∀ r : R, star (algebraMap R K r) = algebraMap R K r)
+    (p : Prog) (hat : ∀ e ∈ p.eqns, I.SoundAt R K e.cls e.prim) :
+    (check p = .linC → IsLinearMap K (run I p)) ∧ (check p = .linR → IsLinearMap R (run I p)) ∧
+    (check p = .antiC → (∀ x y, run I p (x + y) = run I p x + run I p y) ∧
+        ∀ (c : K) x, run I p (c • x) = star c • run I p x) :=
+  ⟨run_linC_local hstar p hat, run_linR_local hstar p hat, fun h => run_antiC_local hstar p hat h⟩
+
+/-- the verdict does not read the `prim` field: giving every equation its own primitive id (its position, so that
+    one interpretation can give each equation its own static parameters) does not change it, and after relabelling
+    the `k`-th equation is the only one carrying id `k` -/
+theorem C06_check_ignores_prim (p : Prog) :
+    check p.relabel = check p ∧
+      ∀ i (hi : i < p.relabel.eqns.length), (p.relabel.eqns[i]).prim = i := by
+  refine ⟨check_relabel p, fun i hi => ?_⟩
+  have := relabelFrom_prim p.eqns 0 i hi
+  rw [Nat.zero_add] at this
+  exact this
 
 /-- the generated obligations are stated with `checkFast`, the same checker in an evaluation order the
     kernel reduces quickly; it computes `check` -/
@@ -142,6 +169,30 @@ end
 
 
 section
+variable {K : Type} [CommSemiring K] [StarRing K] {n m l : Nat}
+
+/-- **The operator calculus preserves linearity** (round 2): sums, scalar multiples and compositions (hence the Gram
+    map `Aᴴ ∘ A`) of linear maps are linear, and so is the conjugated map `x ↦ conj (f (conj x))` - the shape of
+    `A.conj()` and, composed with a transpose, of `A.T`.  With the linear leaves certified by the checker this covers
+    the derived operators for all leaf configurations (the tie traces a sample of them: class `Derived`). -/
+theorem C06_derived_linear (f g : (Fin n → K) → (Fin m → K)) (h : (Fin m → K) → (Fin l → K)) (c : K)
+    (hf : IsLinearMap K f) (hg : IsLinearMap K g) (hh : IsLinearMap K h) :
+    IsLinearMap K (fun x => f x + g x) ∧ IsLinearMap K (fun x => c • f x) ∧
+    IsLinearMap K (fun x => h (f x)) ∧ IsLinearMap K (fun x => star (f (star x))) := by
+  refine ⟨⟨fun x y => ?_, fun a x => ?_⟩, ⟨fun x y => ?_, fun a x => ?_⟩, ⟨fun x y => ?_, fun a x => ?_⟩,
+    ⟨fun x y => ?_, fun a x => ?_⟩⟩
+  · simp only [hf.map_add, hg.map_add]; exact add_add_add_comm _ _ _ _
+  · simp only [hf.map_smul, hg.map_smul, smul_add]
+  · simp only [hf.map_add, smul_add]
+  · simp only [hf.map_smul, smul_comm c a]
+  · simp only [hf.map_add, hh.map_add]
+  · simp only [hf.map_smul, hh.map_smul]
+  · simp only [star_add, hf.map_add]
+  · simp only [star_smul, hf.map_smul, star_star]
+
+end
+
+section
 open Matrix
 
 /-- **The derived adjoint is well defined (existence).**  A linear map `Kⁿ → Kᵐ` has an adjoint for the
@@ -168,6 +219,20 @@ theorem C06_adjoint_unique {K : Type} [CommRing K] [StarRing K] {n m : Nat} (f :
   rwa [key, key] at h
 
 end
+
+/-- **A concrete array family with no hypothesis left** (round 2): values are flattened arrays `ℕ → ℂ`; jointly
+    linear primitives are arbitrary row-finite sparse matrices over their operands (`Arr.applyDesc`: add, sub, neg,
+    scaling, slice, zero padding, concatenate, reduce_sum, cumsum, reverse, broadcast, transpose, gather with constant
+    indices, select_n with a constant predicate, constant matrices such as the DFT - `Proofs/JaxprArray.lean`),
+    bilinear ones are the pointwise product and the full convolution, plus pointwise quotient, real / imaginary part
+    and conjugate.  For EVERY descriptor table `T` and constant table `C` the verdict of the checker gives linearity
+    outright. -/
+theorem C06_array_family_linear (T : ℕ → List Arr.Vc → Arr.LinDesc) (C : ℕ → Arr.Vc) (p : Prog) :
+    (check p = .linC → IsLinearMap ℂ (run (Arr.arrInterp T C) p)) ∧
+    (check p = .linR → IsLinearMap ℝ (run (Arr.arrInterp T C) p)) ∧
+    (check p = .const true → ∀ x, run (Arr.arrInterp T C) p x = 0) :=
+  ⟨run_linC (R := ℝ) (Arr.arrInterp_sound T C) p, run_linR (K := ℂ) (Arr.arrInterp_sound T C) p,
+    fun h => (run_const (R := ℝ) (K := ℂ) (Arr.arrInterp_sound T C) p true h).2 rfl⟩
 
 /-! ### Non-vacuity: a concrete interpretation satisfying every hypothesis, accepted programs that
     compute what they should, rejected programs that really are not linear. -/
@@ -214,5 +279,35 @@ example : run vecInterp affProg 0 ≠ 0 := affProg_zero_ne
 -- a data-dependent predicate and a division by the input are rejected
 example : check dataMaskProg = .bad := by decide
 example : check recipProg = .bad := by decide
+
+-- local form: a globally sound interpretation satisfies the per-equation hypotheses of every program, and the
+-- relabelled forward difference is accepted with ids 0, 1, 2
+example (p : Prog) : ∀ e ∈ p.eqns, vecInterp.SoundAt ℝ ℂ e.cls e.prim := fun e _ => vecInterp_sound.at ℝ ℂ e.cls e.prim
+example : check fdProg.relabel = .linC ∧ fdProg.relabel.eqns.map (·.prim) = [0, 1, 2] := by decide
+
+-- the array family: forward difference by slice, slice, sub is accepted and computes x[i+1] - x[i] for i < n-1;
+-- centring by reduce_sum, broadcast, sub computes x[i] - Σ x; Re(M x) under a constant mask is ℝ-linear only;
+-- x + 1 over the same family is rejected and does not map 0 to 0
+open Scico.Jaxpr.Arr in
+example : check diffProg = .linC ∧ check centreProg = .linC ∧ check reMatProg = .linR ∧ check affArrProg = .bad := by decide
+open Scico.Jaxpr.Arr in
+example (n : ℕ) (h : ℕ → ℕ → ℂ) (C : ℕ → Arr.Vc) : IsLinearMap ℂ (run (arrInterp (demoTable n h) C) diffProg) :=
+  (C06_array_family_linear (demoTable n h) C diffProg).1 (by decide)
+open Scico.Jaxpr.Arr in
+example (n : ℕ) (h : ℕ → ℕ → ℂ) (C : ℕ → Arr.Vc) (x : Fin 1 → Arr.Vc) (j) (i : ℕ) :
+    run (arrInterp (demoTable n h) C) diffProg x j i = if i < n - 1 then x 0 (i + 1) - x 0 i else 0 :=
+  diffProg_run n h C x j i
+open Scico.Jaxpr.Arr in
+example (n : ℕ) (h : ℕ → ℕ → ℂ) (C : ℕ → Arr.Vc) (x : Fin 1 → Arr.Vc) (j) (i : ℕ) (hi : i < n) :
+    run (arrInterp (demoTable n h) C) centreProg x j i = x 0 i - ((List.range n).map (x 0)).sum :=
+  centreProg_run n h C x j i hi
+open Scico.Jaxpr.Arr in
+example (n : ℕ) (h : ℕ → ℕ → ℂ) : run (arrInterp (demoTable n h) (fun _ _ => 1)) affArrProg 0 ≠ 0 := affArrProg_zero n h
+
+-- the calculus: with f = (2·), g = (3·), h = (5·) on ℂ¹ the four derived maps are linear (hypotheses satisfiable)
+example : IsLinearMap ℂ (fun x : Fin 1 → ℂ => star ((2 : ℂ) • star x)) :=
+  (C06_derived_linear (fun x : Fin 1 → ℂ => (2 : ℂ) • x) (fun x => (3 : ℂ) • x) (fun x : Fin 1 → ℂ => (5 : ℂ) • x) 7
+    ⟨fun x y => smul_add _ x y, fun a x => smul_comm _ a x⟩ ⟨fun x y => smul_add _ x y, fun a x => smul_comm _ a x⟩
+    ⟨fun x y => smul_add _ x y, fun a x => smul_comm _ a x⟩).2.2.2
 
 end Scico.Props.C06
